@@ -189,6 +189,7 @@ func VerifC07Index(h *verifrt.H) {
 	if h.Choose("descending", 2) == 1 {
 		order = IndexOrderDesc
 	}
+	mutation := h.Choose("mutation", h.Param("mutations", 4))
 	recs := []c07rec{c07sym(h, "a", bt), c07sym(h, "b", bt)}
 	for _, r := range recs {
 		c07put(s, r)
@@ -196,7 +197,7 @@ func VerifC07Index(h *verifrt.H) {
 	if h.Choose("indexBuiltFirst", 2) == 1 {
 		s.GetTreasuresByBeacon(bt, order, 0, 0, nil, nil)
 	}
-	switch h.Choose("mutation", h.Param("mutations", 4)) {
+	switch mutation {
 	case 1:
 		r := c07sym(h, "c", bt)
 		c07put(s, r)
@@ -289,6 +290,91 @@ func VerifC07Index(h *verifrt.H) {
 			for j := 0; j < i; j++ {
 				h.Assert(got[j].GetKey() != t.GetKey(), "index-page-no-duplicates")
 			}
+		}
+	}
+	h.Cover("end")
+}
+
+// VerifC07Move: hot maintenance of an already built ordered index among THREE records: one
+// record is updated so that its sort value moves (possibly onto another record's value, not
+// necessarily its neighbour's), then optionally deleted; the full index read returns every
+// live record carrying the attribute exactly once, sorted.
+func VerifC07Move(h *verifrt.H) {
+	h.BackgroundLowPriority(true)
+	s := vfMem(h, nil)
+	types := []BeaconType{BeaconTypeCreationTime, BeaconTypeUpdateTime, BeaconTypeExpirationTime, BeaconTypeValueInt64}
+	bt := types[h.Choose("indexType", len(types))]
+	order := IndexOrderAsc
+	if h.Choose("descending", 2) == 1 {
+		order = IndexOrderDesc
+	}
+	timeBased := bt != BeaconTypeValueInt64
+	recs := []c07rec{c07sym(h, "a", bt), c07sym(h, "b", bt), c07sym(h, "c", bt)}
+	for _, r := range recs {
+		c07put(s, r)
+	}
+	s.GetTreasuresByBeacon(bt, order, 0, 0, nil, nil) // the index exists before the update
+	moved := h.Choose("movedRecord", 3)
+	r := c07sym(h, recs[moved].key, bt)
+	t, err := s.GetTreasure(r.key)
+	h.Assert(err == nil, "update-get")
+	g := t.StartTreasureGuard(true)
+	t.SetContentInt64(g, r.val)
+	t.SetCreatedAt(g, time.Unix(0, r.created).UTC())
+	t.SetModifiedAt(g, time.Unix(0, r.modified).UTC())
+	t.SetExpirationTime(g, time.Unix(0, r.expir).UTC())
+	t.Save(g)
+	t.ReleaseTreasureGuard(g)
+	recs[moved] = r
+	if h.Choose("thenDelete", 2) == 1 {
+		h.Assert(s.DeleteTreasure(r.key, false) == nil, "delete")
+		recs = append(recs[:moved:moved], recs[moved+1:]...)
+	}
+	got, err := s.GetTreasuresByBeacon(bt, order, 0, 0, nil, nil)
+	h.Assert(err == nil, "index-read-ok")
+	want := 0
+	for _, x := range recs {
+		if !timeBased || x.attr(bt) != 0 {
+			want++
+		}
+	}
+	h.Assert(len(got) == want, "moved-index-holds-every-live-record-once")
+	for i, x := range got {
+		var a int64
+		switch bt {
+		case BeaconTypeCreationTime:
+			a = x.GetCreatedAt()
+		case BeaconTypeUpdateTime:
+			a = x.GetModifiedAt()
+		case BeaconTypeExpirationTime:
+			a = x.GetExpirationTime()
+		default:
+			a, _ = x.GetContentInt64()
+		}
+		live := false
+		for _, y := range recs {
+			if y.key == x.GetKey() {
+				live = true
+				h.Assert(a == y.attr(bt), "moved-index-entry-carries-current-value")
+			}
+		}
+		h.Assert(live, "moved-index-has-no-deleted-record")
+		for j := 0; j < i; j++ {
+			h.Assert(got[j].GetKey() != x.GetKey(), "moved-index-no-duplicates")
+		}
+		if i > 0 {
+			var p int64
+			switch bt {
+			case BeaconTypeCreationTime:
+				p = got[i-1].GetCreatedAt()
+			case BeaconTypeUpdateTime:
+				p = got[i-1].GetModifiedAt()
+			case BeaconTypeExpirationTime:
+				p = got[i-1].GetExpirationTime()
+			default:
+				p, _ = got[i-1].GetContentInt64()
+			}
+			h.Assert(order == IndexOrderAsc && p <= a || order == IndexOrderDesc && p >= a, "moved-index-sorted")
 		}
 	}
 	h.Cover("end")
